@@ -69,11 +69,11 @@ RULES = {
     "stuck_reported_by": ["C04", "C05", "C06", "C10", "C11", "C13", "C14", "C15", "C17", "C19"],
     "miri_report_props": {},
     "nontrivial": {
-        "C01": "seeded pipeline stress (families A, B, E; family A includes stop() running into its timeout with a parked reducer and a backlog, judged after the reducer loop has ended on its own): policy, capacity 1-16, 1-6 producers x 1-40 actions, 1-4 reducers with a Dispatch/Keep table, middlewares, subscribers, readers, run-time registration, stop racing or after join; non-trivial iff >=2 producer threads interleaved, >=1 Keep answer and a chain of >=2 reducers; " + SCHED,
+        "C01": "seeded pipeline stress (families A, B, E; family A includes stop() running into its timeout with a parked reducer and a backlog, judged after the reducer loop has ended on its own, and the only handle dropped without stop() while the reducer is parked with a backlog): policy, capacity 1-16, 1-6 producers x 1-40 actions, 1-4 reducers with a Dispatch/Keep table, middlewares, subscribers, readers, run-time registration, stop racing or after join; non-trivial iff >=2 producer threads interleaved, >=1 Keep answer and a chain of >=2 reducers; " + SCHED,
         "C02": "families A, C, B under all three policies and five entry points; non-trivial iff >=1 cross-thread pair with ret(a)<inv(b) was compared, >=2 entry points and >=2 dispatching threads; " + SCHED,
         "C03": "families A and D (A: also stop() left to its timeout with a backlog, judged once the loop has released its subscribers; D: k threads released together unsubscribing k different subscribers with another one registered behind them); non-trivial iff >=2 producers, >=2 whole-run subscribers and a Keep action between two notifying actions; " + SCHED,
         "C04": "families B, D and K (D: late unsubscribes racing stop(), a stalled drop-policy channeled subscriber released 0.7-1.4 s after stop() was invoked, a subscriber list poisoned by a panicking on_unsubscribe; K: stop() called from a task on another store's pool); family B: 1-6 producers dispatch until Err while one thread calls stop()/close();stop()/Store::stop() with a backlog built by a gated or slow reducer, then probes every entry point; non-trivial iff >=1 dispatch overlapped the shutdown, backlog >=1 at stop.inv, and both Ok and Err results occurred; " + SCHED,
-        "C05": "family C: gated stepper reducer (exact dispatch/step programs, capacities 1-16, 1-4 producers) and ungated stalls (in half of them two of three actions return an Effect::Action, i.e. the store dispatches to itself from its pool while callers are blocked on the full queue); non-trivial iff a dispatch was open at a gated quiescent point with a full queue and later returned (or, ungated, the queue was observed full); " + SCHED,
+        "C05": "family C: gated stepper reducer (exact dispatch/step programs, capacities 1-16, 1-4 producers) and ungated stalls (in half of them two of three actions return an Effect::Action, i.e. the store dispatches to itself from its pool while callers are blocked on the full queue); natively the stepper also times how soon callers that sat out a 1.1 s stall resume once room was made (two or more resumptions >= 100 ms in one scenario are a violation); non-trivial iff a dispatch was open at a gated quiescent point with a full queue and later returned (or, ungated, the queue was observed full); " + SCHED,
         "C06": "family C: burst n>capacity while the reducer is parked in a plug action, 1-4 producers, both drop policies, plus reducer-running variant (in half of the drained ones two of three actions return an Effect::Action and conservation counts the self-dispatched follow-ups after an exact quiescence wait), plus close() and a further dispatch while the reducer is still parked on the full queue; non-trivial iff >=1 discard was observed (gated: with the queue full at the quiescent point); " + SCHED,
         "C07": "families A and D (incl. the stop()-timeout and concurrent-unsubscribe scenarios of C03); non-trivial iff >=2 producers, >=2 pipeline phases populated and (>=1 run-time registration followed by a dispatch of the registering thread, or an unsubscribe() during the stream); " + SCHED,
         "C08": "families A and G with reader threads and reads inside subscriber/middleware callbacks; 1/25 of family A scenarios have a subscriber panicking inside on_notify of the k-th action (only C08 is judged there); non-trivial iff >=20 reads matched, one reader saw >=3 distinct positions and >=1 read was made inside a subscriber callback; " + SCHED,
@@ -81,10 +81,10 @@ RULES = {
         "C10": "family D: subscribed()/subscribed_with() capacity 1-4 x 3 policies, direct twin registered right after, stalled (gated) drop-policy subscriber (released before stop() or 0.7-1.4 s after stop() was invoked), unsubscribe/stop at random points, poisoned subscriber list; non-trivial iff the subscriber's channel was full at least once (discard, delivery lagging by >= capacity, or progress while stalled); " + SCHED,
         "C11": "family E (+ witness W1): reducers return 0-4 effects per chain of all four kinds, thunks dispatching follow-ups, panicking and gated effects, middleware removing effects, client dispatch_task/thunk, stop with and without backlog (natively a stop() that gives up after its timeout although every gate was open, with work going on after it returned, is a violation); non-trivial iff >=2 effect kinds ran, >=1 follow-up was reduced and >=1 action issued >=2 effects; " + SCHED,
         "C12": "family F: exhaustive enumeration of the verdict assignments {Continue,Done,Break,Err}^(3M) for M=1..3 middlewares x {Dispatch,Keep} (64+4096+262144 assignments x 2), one action per pair on a live store in seed-shuffled order with effect/removal variants; in every fifth batch with M>=2 the last middleware is registered with add_middleware() from another thread while middleware 0 is parked inside before_reduce of a first action; non-trivial = every batch (all pairs are checked against the reference model); distinct = distinct enumeration batch of 2048 pairs (conservative: see assignment_answer_pairs_executed for the pair count)",
-        "C13": "family B (stop-race programs: a stop() left to its timeout with the loop still running is reported, natively also one that returns before the loop has ended although nothing was parked or slow) and family G: 2-4 client threads running random programs over the whole public API, each ending with stop(), in a third of the blocking-policy scenarios preceded by a phase in which every thread hammers a capacity-1/2 queue and thread 0 calls iter() in the middle of it (+ witnesses W2, W3 of the known iterator findings); non-trivial iff >=3 client threads and >=4 operation kinds; " + SCHED,
+        "C13": "family B (stop-race programs: a stop() left to its timeout with the loop still running is reported, natively also one that returns before the loop has ended although nothing was parked or slow, or although the reducer - parked with a full queue until 3.4 s after the call - had been released and the join had not used up its time) and family G: 2-4 client threads running random programs over the whole public API, each ending with stop(), in a third of the blocking-policy scenarios preceded by a phase in which every thread hammers a capacity-1/2 queue and thread 0 calls iter() in the middle of it (+ witnesses W2, W3 of the known iterator findings); non-trivial iff >=3 client threads and >=4 operation kinds; " + SCHED,
         "C14": "families D and B (+ witness W2): iterator consumer on its own thread racing 1-4 producers and stop(), iterator created at a random point before stop(); an unread empty iterator dropped while another unsubscribe() is parked inside on_unsubscribe, then actions for a second, live iterator; non-trivial iff >=1 item was consumed while producers were still dispatching and end-of-stream was reached; " + SCHED,
-        "C15": "family B with drop(DroppableStore) as the stop operation and outstanding clones used by 1-6 threads; natively a drop that returns through its timeout with the loop still running although nothing was parked is a violation; 1/25: subscriber list poisoned by a panicking on_unsubscribe before the drop; non-trivial as C04 plus >=1 clone used after the drop; " + SCHED,
-        "C16": "family K (one SelectorSubscriber instance registered on two stores); family I: exhaustive enumeration of all sequences over {0,1,2} up to length 9 fed to a real SelectorSubscriber, once with u8 equality and once with a tolerance (non-transitive) equality, plus family D (subscribe_with_selector on a live store; one SelectorSubscriber notified by 2-4 threads in lock step, 300 rounds); non-trivial iff the sequence/stream contains both a repeat and a change; distinct = enumeration length class or schedule fingerprint",
+        "C15": "family B with drop(DroppableStore) as the stop operation and outstanding clones used by 1-6 threads; natively a drop that returns through its timeout with the loop still running although nothing was parked is a violation, as is one that returns with the backlog unprocessed right after a late release of the parked reducer; 1/25: subscriber list poisoned by a panicking on_unsubscribe before the drop; non-trivial as C04 plus >=1 clone used after the drop; " + SCHED,
+        "C16": "family K (one SelectorSubscriber instance registered on two stores); family I: exhaustive enumeration of all sequences over {0,1,2} up to length 9 fed to a real SelectorSubscriber, once with u8 equality and once with a tolerance (non-transitive) equality, plus family D (subscribe_with_selector on a live store; one SelectorSubscriber notified by 2-4 threads in lock step, 300 rounds, then by free-running threads, then with its callback parked while another thread presents the next value); non-trivial iff the sequence/stream contains both a repeat and a change; distinct = enumeration length class or schedule fingerprint",
         "C17": "family H: both constructors x every sequence over 18 builder calls up to length 3 (quick, 12 350 builds) / 4 (thorough, 222 302) plus random length 5-8, each compared with the last-setting model and every Ok result probed (thread name, chain order, middleware order, queue bound, drop behaviour); distinct = enumeration chunk of 64 builds (see builds for the count)",
         "C18": "families A, B, C, E with a sampler thread; non-trivial iff >=2 dispatching threads and at least two of {drops, vetoes, effects, rejected dispatches} occurred; " + SCHED,
         "C19": "family K: two stores (equal or different configuration, possibly same name, shared subscriber object), interleaved clients, one stopped or dropped while the other is busy; natively 1/6: the idle store is stopped while the other store's stop() waits for its own parked effect; 1/40: pool probe - two fresh child processes differing only in the store created first must run the same number of parked effects at once; non-trivial iff the survivor had reducer-context events or a backlog while the other was stopping; " + SCHED,
@@ -95,6 +95,7 @@ RULES = {
             "verdict covers only the executions produced by this run (generated scenarios x OS/Miri schedules); nothing is proved",
             "the harness' Relaxed logical clock orders events consistently with happens-before; scripted callbacks are deterministic functions of (action, script table)",
             "stop() calls that took >= 2.5 s and watchdog/controller caps are counted inconclusive, never violations - except (natively only) in families B and E, where nothing is parked or slow once the stop is invoked: there a stop that returns through its timeout while the reducer loop is still running is reported",
+            "the resume-latency rule of C05 is the only wall-clock verdict: it needs two delays of >= 100 ms in one scenario where the unmodified tree shows microseconds",
             "a subscriber whose callback panics is itself outside the properties (callbacks are assumed to return); what the panic does to the state, to other subscribers and to shutdown is judged",
         ],
         "C12": ["exhaustive only over the stated finite space (1..3 middlewares, one action per assignment)"],
